@@ -111,6 +111,10 @@ def runSock (prop : String) (f : List String) (obsS : String) : Verdict :=
     let c := bufferedCfg (if capS == "d" || capS == "-" then none else capS.toNat?)
     let auto := drainS == "a"
     let ops := splitList opsS ","
+    -- `err<k>!`: the sink returned an error that is not an OS error, i.e. not the socket's own error
+    let foreign := (obsS.splitOn ";").any fun o => ((o.splitOn "/").headD "").endsWith "!"
+    if foreign then
+      ⟨false, obsS, "", some (if buffered then "C07+C13" else "C13", "the sink failed with an error that is not the socket's error (rebuilt: errno lost)"), [kind], false⟩ else
     let obs := obsS.splitOn ";"
     if obs.length ≠ ops.length + 2 && !(obs.any (·.startsWith "stuck")) then badCase else
     let rec go (s : SSt) (ops obs : List String) (mo io : List String) (v : Option Viol)
@@ -277,9 +281,18 @@ def runCr (_prop : String) (_f : List String) (obsS : String) : Verdict :=
     else ⟨true, obsS, obsS, none, [if refused ≥ 2 then "conn-refused" else "conn-refused-not-reproduced"], false⟩
   | _ => ⟨true, obsS, obsS, none, ["conn-refused-setup-failed"], false⟩
 
+/-- more than 4 GiB through one sink: the counters are true totals (C14) -/
+def runBig (_prop : String) (_f : List String) (obsS : String) : Verdict :=
+  if obsS == "ok" then ⟨true, "ok", "ok", none, ["more-than-4GiB"], false⟩
+  else if obsS == "setup-failed" then ⟨true, obsS, obsS, none, ["more-than-4GiB-setup-failed"], false⟩
+  else ⟨true, obsS, obsS, some (if obsS == "panic" then "C14+C20" else "C14", "long history on one sink: " ++ obsS), ["more-than-4GiB"], false⟩
+
 def runLock (_prop : String) (_f : List String) (obsS : String) : Verdict :=
   if obsS == "ok" then ⟨true, "ok", "ok", none, ["lock-contention"], false⟩
   else if obsS == "ok-not-blocked" then ⟨true, "ok", "ok", none, ["lock-contention-not-set-up"], false⟩
-  else ⟨true, obsS, obsS, some ("C12", "lock contention scenario: " ++ obsS), ["lock-contention"], false⟩
+  else
+    -- a flush that returns while data it should have written is still buffered is a C06 matter as well
+    let p := if (obsS.splitOn "flush").length > 1 then "C12+C06" else "C12"
+    ⟨true, obsS, obsS, some (p, "lock contention scenario: " ++ obsS), ["lock-contention"], false⟩
 
 end Drv.SockE
